@@ -158,6 +158,12 @@ class Ev:
                     m = self.methods.get((k, n.attr))
                     if m is not None:
                         return _Bound(base, m)
+                if hasattr(self.methods, "class_attr"):
+                    for k in base.kinds:
+                        if k in getattr(self.methods, "classes", {}):
+                            v = self.methods.class_attr(k, n.attr)
+                            if v is not self.methods._NOATTR:  # noqa: SLF001
+                                return v
                 raise _ModelRaise(f"AttributeError: {n.attr}")
             if isinstance(base, Sym):
                 return Sym(f"{base.name}.{n.attr}")
